@@ -32,6 +32,8 @@ PAL_MORE = [
     ({'k': 'aset', 'v': '31'}, ['31']),
     ({'k': 'int', 'v': 0}, ['0']),
     ({'k': 'aset_astr', 'v': '1'}, ['1']),
+    ({'k': 'str_astr', 'v': 'bold'}, ['1']),
+    ({'k': 'str_astr', 'v': '1;31'}, ['1', '31']),
     ({'k': 'aset_astr', 'v': '38;5;9'}, ['38;5;9']),
     ({'k': 'str', 'v': 'rgb(10,20,30)'}, ['38;2;10;20;30']),
     ({'k': 'str', 'v': 'bg_color256(7)'}, ['48;5;7']),
